@@ -1,5 +1,6 @@
 import Rare.Base.Proto
 import Rare.Model.C02
+import Rare.Model.C02Filter
 import Rare.Drv.C01
 import Rare.Gen.C02
 namespace Rare.Drv.C02
@@ -18,7 +19,12 @@ def ansOf : Except String KeyAns → String
 /--
 * `ctx <line> <indices> <names hexlist> <name idx ints> <src> <linenum> <key>` – `GetKey(key)` (a decimal
   key is a group reference and goes to `GetMatch`, as `stageSimpleVariable` decides);
-* `wrap <line> <groups>` – `color.WrapIndices` with colours on: rendered bytes and stripped bytes;
+* `wrap <line> <groups>` – `color.WrapIndices` with colours on: rendered bytes;
+* `filt <enabled> <m|d> <pattern> <line> <indices>` – what `rare filter` (no `-e`) prints for a one-line
+  input whose matcher returned `indices` (`.` = no match): nothing when the line does not match or the
+  whole match `{0}` is empty (the extractor drops empty keys), otherwise `filterLine`; the pattern is
+  only used by the implementation side;
+* `vis <bytes>` – `color.StrLen`'s visible bytes (count compared with the real `StrLen`);
 * `pipe …`, `regexpipe <n>` – pipeline ops shared with C01.
 -/
 def handle : List String → String
@@ -35,10 +41,30 @@ def handle : List String → String
   | ["wrap", l, g] =>
     match Hex.dec l, decInts g with
     | some line, some groups =>
-      match wrapIndices line (Gen.C02.groupColors.map ascii) (ascii Gen.C02.reset) groups with
-      | .ok segs => s!"ok {Hex.enc (render segs)} {Hex.enc (strip segs)}"
+      match wrapIndices line (Gen.C02.groupColors.map lit) (lit Gen.C02.reset) groups with
+      | .ok segs => if strip segs == line then s!"ok {Hex.enc (render segs)}" else s!"ok {Hex.enc (render segs)} strip-differs"
       | .error _ => "panic"
     | _, _ => "bad-args"
+  | ["filt", en, _, _, l, ix] =>
+    match Hex.dec l, decInts ix with
+    | some line, some indices =>
+      if indices.isEmpty then "ok -"
+      else match getMatch line indices 0 with
+        | .error _ => "panic"
+        | .ok [] => "ok -"
+        | .ok _ =>
+          match filterLineK Gen.C02.filterWholeLen Gen.C02.filterSkip (en == "1") (Gen.C02.groupColors.map lit)
+              (lit Gen.C02.reset) line indices with
+          | .ok segs => s!"ok {Hex.enc (render segs)}"
+          | .error _ => "panic"
+    | _, _ => "bad-args"
+  | ["vis", b] =>
+    match Hex.dec b with
+    | some bytes =>
+      let v := (visibleRun (UInt8.ofNat Gen.C02.escapeRune) false bytes).1
+      -- StrLen counts runes: for well-formed UTF-8 these are the bytes that are not continuation bytes
+      s!"ok {(v.filter fun c => c < 0x80 || c ≥ 0xc0).length}"
+    | none => "bad-args"
   | "pipe" :: rest => Rare.Drv.C01.handle ("pipe" :: rest)
   | ["regexpipe", n, _, _, _, _] => s!"ok stable=1 n={n}"
   | _ => "bad-op"
